@@ -297,8 +297,8 @@ export function breakLink(split, prog, rng) {
   const homeFile = split.home[l.name];
   if (kind === "unexport") {
     const declName = split.collision && split.collision.original === l.name ? split.collision.as : l.name;
-    const re = new RegExp(`^export ((?:type|interface|enum|const|declare const) ${declName}\\b)`, "m");
-    if (!re.test(files[homeFile])) return null;
+    const re = new RegExp(`^export ((?:type|interface|enum|const|declare const) ${declName}\\b)`, "gm"); // (all declarations of a merged interface)
+    if (!new RegExp(re.source, "m").test(files[homeFile])) return null;
     files[homeFile] = files[homeFile].replace(re, "$1").replace(new RegExp(`^export default ${declName};\\n`, "m"), "");
     // other routes to the same declaration (export lists elsewhere) would keep it resolvable
     if (Object.values(files).some((t) => new RegExp(`export \\{[^}]*\\b${declName}\\b`).test(t))) return null;
